@@ -450,4 +450,4 @@ mod tests {
 
 #[cfg(kani)]
 #[path = "/verif/units/kani/core_update.rs"]
-mod verif_kani;
+pub(crate) mod verif_kani;
